@@ -121,6 +121,13 @@ def request_cases(maxk, full):
     for nb in NAME_BYTES:
         yield {**base, "hs": [nb], "body": "none", "edit": "none", "method": b"GET"}
         yield {**base, "hs": [nb, "cl3"], "body": "abc", "edit": "none"}
+    # well-framed bodies x every addon edit x the headers mitmproxy itself acts on (Expect, Connection)
+    for special in ("expect", "close", "ka", "plain"):
+        for framing, body in (("cl3", "abc"), ("te", "chunked"), ("te", "chunktrail"), ("tegz", "chunked"), ("cl0", "none")):
+            for edit in EDITS + ["stream"]:
+                for hs in ([special, framing], [framing, special]):
+                    for second in (False, True):
+                        yield {**base, "hs": hs, "body": body, "edit": edit, "second": second}
 
 
 RESP_STATUS = {"200": b"200 OK", "204": b"204 No Content", "304": b"304 Not Modified", "100+200": b"100 Continue", "404": b"404 Not Found", "101": b"101 Switching Protocols"}
